@@ -420,12 +420,19 @@ def correspondence(ck, label, cases_by_fw, coq_limit, prop="C05", oracle_fn=None
 
 
 def run(ck):
-    ck.rule.append("event sequences over the alphabet {handshake ok/bad, sendClose x6 variants, sendMessage/Ping/Pong, peer close "
-                   "valid/empty/1-octet/bad code/bad UTF-8, peer data/ping/pong(matching or not)/violation/invalid payload, "
-                   "tick to each candidate deadline, peer TCP drop clean/unclean, delivery of our own drop}: all sequences up to "
-                   "the exhaustive length after a successful handshake plus random longer ones, x role x failByDrop x "
-                   "echoCloseCodeReason x timeout grid {0,1,2}s, on Twisted Clock and on the asyncio virtual loop. "
-                   "non-trivial = left CONNECTING; distinct = distinct (framework, cfg, event list)")
+    ck.rule.append("event sequences on a virtual clock, each after a real opening handshake unless stated: (1) ALL sequences of length "
+                   "<= 4 (thorough 5) over the core alphabet {sendClose(1000,reason), sendMessage, peer close valid / reserved code, "
+                   "peer data, peer violation, tick to the next pending deadline, tick +1 s, peer TCP drop, delivery of our own "
+                   "drop} x role x failByDrop (echoCloseCodeReason=True: one shorter); (2) the timeout grid closeHandshakeTimeout x "
+                   "serverConnectionDropTimeout in {0,1,2} s x role x failByDrop x echo on all core sequences of length <= 2 (3) and a "
+                   "third of the grid one longer; (3) ALL sequences of length <= 2 (thorough 3) over the full 29-event alphabet "
+                   "{handshake ok/bad, sendClose x6 argument shapes, sendMessage/Ping/Pong, peer close valid/empty/1-octet/reserved "
+                   "code/bad UTF-8, peer data/ping/pong matching or not/violation/invalid payload, 4 kinds of tick, TCP drop clean/"
+                   "unclean, own drop}; (4) from CONNECTING (no handshake forced) all sequences of length <= 4 (5) over {handshake "
+                   "ok/bad, sendClose, sendMessage, tick, drops} x openHandshakeTimeout {0,1,2} s; (5) random walks of length <= 12 "
+                   "(16) over the full alphabet with auto-ping and start phases 0/125/375/1000/1875 ms mixed in; every sequence on the "
+                   "Twisted Clock or the asyncio virtual loop (the model sample on both). non-trivial = left CONNECTING; distinct = "
+                   "distinct (framework, cfg, event list)")
     ck.extra_tb += TRUSTED
     regenerate_consts(ck)
     broken = ck.coq_props()
@@ -444,20 +451,21 @@ def run(ck):
                 yield prefix + [list(e) for e in seq]
     # (1) ALL sequences over the core alphabet up to length 4 (quick) / 5 (thorough), role x failByDrop x echo
     deep_len = 4 if quick else 5
-    deep_cfgs = [c for c in roles_flags if not c["echo"]] if quick else roles_flags
+    deep_cfgs = [c for c in roles_flags if not c["echo"]]
     deep = [dict(cfg=cfg, events=evs) for cfg in deep_cfgs for evs in seqs(CORE, deep_len, [["hs"]])]
-    deep += [dict(cfg=cfg, events=evs) for cfg in roles_flags if cfg["echo"] and quick for evs in seqs(CORE, 3, [["hs"]])]
+    deep += [dict(cfg=cfg, events=evs) for cfg in roles_flags if cfg["echo"] for evs in seqs(CORE, deep_len - 1, [["hs"]])]
     # (2) the timeout grid {0,1,2} s x {0,1,2} s on all core sequences up to length 3 (quick) / 4
-    gridded = [dict(cfg=cfg, events=evs) for cfg in grid for evs in seqs(CORE, 2 if quick else 4, [["hs"]])]
-    if quick:
-        gridded += [dict(cfg=cfg, events=evs) for cfg in grid[::5] for evs in seqs(CORE, 3, [["hs"]])]
+    gridded = [dict(cfg=cfg, events=evs) for cfg in grid for evs in seqs(CORE, 2 if quick else 3, [["hs"]])]
+    gridded += [dict(cfg=cfg, events=evs) for cfg in (grid[::5] if quick else grid[::3]) for evs in seqs(CORE, 3 if quick else 4, [["hs"]])]
     # (3) ALL sequences over the full alphabet up to length 2 (quick) / 3, role x failByDrop x echo
-    full = [dict(cfg=cfg, events=evs) for cfg in roles_flags for evs in seqs(alphabet(), 2 if quick else 3, [["hs"]])]
+    full = [dict(cfg=cfg, events=evs) for cfg in roles_flags for evs in seqs(alphabet(), 2, [["hs"]])]
+    if not quick:
+        full += [dict(cfg=cfg, events=evs) for cfg in deep_cfgs for evs in seqs(alphabet(), 3, [["hs"]])]
     # (4) from CONNECTING (no forced handshake): all sequences up to length 4 / 5 over the connecting alphabet
-    conn = [dict(cfg=base_cfg(role=r, failByDrop=f, openTO=o), events=evs) for r in ("server", "client") for f in ((True,) if quick else (True, False))
+    conn = [dict(cfg=base_cfg(role=r, failByDrop=True, openTO=o), events=evs) for r in ("server", "client")
             for o in (0, 1000, 2000) for evs in seqs(CORE_CONNECTING, 4 if quick else 5, [])]
     # (5) random walks over the full alphabet, with auto-ping and fractional start times mixed in
-    n_rand = 5000 if quick else 120000
+    n_rand = 5000 if quick else 60000
     maxlen = 12 if quick else 16
     randoms = []
     al = alphabet()
@@ -479,7 +487,7 @@ def run(ck):
            f"from CONNECTING: {len(conn)}, random (len<= {maxlen}): {len(randoms)}")
     ck.exhaustive = False
     # model comparison (Coq) on a budgeted, deterministic sample of every family; everything on the independent oracle
-    budget = 1400 if quick else 10000           # per framework
+    budget = 1400 if quick else 6000            # per framework
     fam = [deep, gridded, full, conn, randoms]
     sample = list(corpus)
     for f in fam:
